@@ -11,6 +11,8 @@ R03.4 gas accounting                 : the Ok arm of the main loop charges the i
       inherits the parent's gas; nothing else writes the gas counter.
 R03.5 forked thread's first instruction: the fork path also consults the forking thread's own visit count of the target.
 R03.6 loop audit                     : every `loop` / `while` in code reachable from analyze() is classified in a reviewed table.
+R03.8 unification consumes evidence  : every judgement-emitting arm of merge files a new expression or uses a fresh variable
+      (= C14 R14.5, re-evaluated); termination of the fixpoint in general is not decided.
 R03.7 bounded recursion and ranges   : every recursive call-graph component has a reviewed (and, for seen-set cuts, verified)
       depth bound, and no range loop is scaled by an unclamped attacker-chosen constant (= C01 R01.3 / R01.4, re-evaluated).
 """
@@ -407,6 +409,8 @@ def check(fx, rep, tier):
     from .c18 import check_limit_writers
 
     check_limit_writers(fx, rep, "R03.3", "gas_limit")
+    # unification finishes: every arm of merge consumes evidence (C14 R14.5, re-evaluated)
+    core.import_rules(rep, fx, "C14", "R03.8", only_rules=("R14.5",), floor=1, what="judgement-emitting merge arms audited for consuming evidence")
     core.import_rules(rep, fx, "C01", "R03.7", only_rules=("R01.3", "R01.4"), floor=10, what="recursive components and attacker-scaled ranges audited for halting")
     return rep.finish(
         "Control-skeleton audit of the four execution bounds: who writes the instruction pointer and who may step; the stop condition guarding the single step "
